@@ -1,5 +1,50 @@
 import Cellml.Basic.Sexp
-/-! Channel C17 of the model driver (stub: not built yet). -/
+import Cellml.C01.Driver
+import Cellml.C03.Driver
+import Cellml.C17.Model
+
+/-! Channel C17: `(C17 load (units u…) (comps c…) (encaps e…) (conns k…) (udefs d…) (compunits i…) (reactions i…)
+                           (badeqs (ci pos lhs rhs)…))`
+      the first four parts are the C01 wire format (`C01.doc?`; `units` sorted, used by `Load.load` only);
+      `udefs` = the `<units>` children of `<model>` in DOCUMENT order, C03 wire format (`C03.udef?`);
+      `compunits` / `reactions` = file-order indices of the components with a `<units>` / `<reaction>` child;
+      `badeqs` in processing order: `lhs` = `(higher "x" "t" n)` | `(nonvar expr)`
+    → `(ok)` | `(err Class "what")` — `C17.loadFull`. -/
 namespace C17
-def handle (_args : List Sexp) : Sexp := .atom "not-implemented"
+open Sexp Load
+
+def part? (name : String) : List Sexp → Option (List Sexp)
+  | [] => none
+  | .list (.atom n :: xs) :: rest => if n == name then some xs else part? name rest
+  | _ :: rest => part? name rest
+
+def badLhs? : Sexp → Option BadLhs
+  | .list [.atom "higher", x, t, n] => do some (.higher (← atomOf? x) (← atomOf? t) (← nat? n))
+  | .list [.atom "nonvar", e] => do some (.nonvar (← C01.expr? e))
+  | _ => none
+
+def badEq? : Sexp → Option BadEq
+  | .list [ci, pos, l, r] => do some ⟨← nat? ci, ← nat? pos, ← badLhs? l, ← C01.expr? r⟩
+  | _ => none
+
+def faultDoc? (args : List Sexp) : Option FaultDoc := do
+  let doc ← C01.doc? args
+  let udefs ← (← part? "udefs" args).mapM C03.udef?
+  let cu ← (← part? "compunits" args).mapM nat?
+  let rx ← (← part? "reactions" args).mapM nat?
+  let bad ← (← part? "badeqs" args).mapM badEq?
+  some { doc := doc, udefs := udefs, compUnits := cu, reactions := rx, badEqs := bad }
+
+def reply : Except Err Flat → Sexp
+  | .ok _ => .list [.atom "ok"]
+  | .error e => .list [.atom "err", .atom (className e), .str e.what]
+
+def handle (args : List Sexp) : Sexp :=
+  match args with
+  | .atom "load" :: rest =>
+      match faultDoc? rest with
+      | none => .atom "bad-document"
+      | some fd => reply (loadFull fd)
+  | _ => .atom "bad-request"
+
 end C17
